@@ -46,16 +46,15 @@ NGLOB = "stepup/core/nglob.py"
 # _get_wildcard_name, NamedGlob._match_values / extend / reduce / will_change / files are no longer
 # here: translator/gen_nglob_code.py translates their statements into Gallina and
 # proofs/NglobCodeTie.v proves the result equal to the model.  Left, and why:
-#  - convert_nglob_to_regex: its constants, guards and the post-processing block are shape-matched
-#    above (translate_conv_regex); the fingerprint covers the remaining control flow (string-typed
-#    regex fragments manipulated as text cannot be translated without a regex parser in Coq);
+#  - convert_nglob_to_regex is no longer fingerprinted: its main loop is translated statement by statement
+#    (translator/gen_nglob_regex.py, proofs/NglobRegexTie.v), its post-processing block is compared verbatim
+#    and the prologue / return are shape-checked in translate_conv_regex;
 #  - iter_wildcard_names / has_anonymous_wildcards (generators over RE_ANY_WILD.split),
 #    NamedGlob._default_* (attrs defaults: one call each), NamedGlob.glob (compared verbatim above);
 # Workflow.process_nglob_changes and startup.rescan_nglobs are no longer fingerprinted either:
 # translator/gen_nglob_batch.py translates them (together with Watcher.record_change and will_change)
 # and proofs/NglobBatchTie.v proves the result equal to model/NglobBatch.v.
 FINGERPRINTED = [
-    ("conv_regex", NGLOB, "convert_nglob_to_regex", None),
     ("iter_wildcard_names", NGLOB, "iter_wildcard_names", None),
     ("has_anonymous_wildcards", NGLOB, "has_anonymous_wildcards", None),
     ("default_used_names", NGLOB, "_default_used_names", "NamedGlob"),
@@ -138,6 +137,14 @@ def translate_wild_parts():
     return parts, text, int(ng.RE_ANY_WILD.flags)
 
 
+KNOWN_CHAIN = {
+    "q": "[^/]", "star": "[^/]*", "star_skip_after": ["*", "**"], "dstar": ".*", "dstar_skip_after": ["**"],
+    "dstar_replace_after": ["*"], "dstarslash": "(?:.*/|)", "dstarslash_skip_after": ["**/"],
+    "dstarslash_replace_after": ["*", "**"], "cls_neg": "[^{}]", "cls_pos": "[{}]", "ref": "(?P={})",
+    "default_sub": "*", "grp": "(?P<{}>{})", "star_name_when": "[^/]*",
+}
+
+
 def translate_conv_regex():
     fn = find_function(parse_module(NGLOB), "convert_nglob_to_regex")
     args = [a.arg for a in fn.args.args]
@@ -150,115 +157,132 @@ def translate_conv_regex():
     loop = loops[0]
     if ast.unparse(loop.iter) != "enumerate(RE_ANY_WILD.split(pattern))":
         raise TranslatorError("convert_nglob_to_regex: the loop does not run over RE_ANY_WILD.split(pattern)")
-    if len(loop.body) != 2 or not all(isinstance(s, ast.If) for s in loop.body):
-        raise TranslatorError("convert_nglob_to_regex: loop body is not two if statements")
-    par, upd = loop.body
-    if ast.unparse(par.test) != "i % 2 == 0":
-        raise TranslatorError("convert_nglob_to_regex: parity test changed")
-    if ast.unparse(par.body[0]) != "if len(part) > 0:\n    parts.append(re.escape(part))" or len(par.body) != 1:
-        raise TranslatorError("convert_nglob_to_regex: literal branch is not parts.append(re.escape(part))")
-    if ast.unparse(upd) != "if len(part) > 0:\n    last = part":
-        raise TranslatorError("convert_nglob_to_regex: `last` update changed")
-    wild = par.orelse
-    # replace = False; regex = None; star_name = None; <if chain>; <push>
-    inits = [ast.unparse(s) for s in wild[:3]]
-    if inits != ["replace = False", "regex = None", "star_name = None"] or len(wild) != 5:
-        raise TranslatorError("convert_nglob_to_regex: wildcard branch preamble changed")
-    push = ast.unparse(wild[4])
-    expected_push = ("if regex is not None and len(regex) > 0:\n    if replace:\n        parts[-1] = regex\n"
-                     "    else:\n        parts.append(regex)\n    if star_name is not None:\n"
-                     "        star_names[len(parts) - 1] = star_name")
-    if push != expected_push:
-        raise TranslatorError("convert_nglob_to_regex: the code that stores the fragment changed")
-    chain = []
-    node = wild[3]
-    while isinstance(node, ast.If):
-        chain.append(node)
-        if len(node.orelse) == 1 and isinstance(node.orelse[0], ast.If):
-            node = node.orelse[0]
-        else:
-            tail = node.orelse
-            break
-    if len(chain) != 6 or len(tail) != 1 or not isinstance(tail[0], ast.Raise):
-        raise TranslatorError(f"convert_nglob_to_regex: wildcard chain has {len(chain)} branches (6 + raise expected)")
-    out = {}
-    # 1: ?
-    if _cmp_const(chain[0].test, "part", ast.Eq, "branch ?") != "?" or len(chain[0].body) != 1:
-        raise TranslatorError("branch 1 is not `part == '?'`")
-    out["q"] = _const_str(_assign_of(chain[0].body[0], "regex", "branch ?"), "branch ?")
-    # 2: *
-    if _cmp_const(chain[1].test, "part", ast.Eq, "branch *") != "*" or len(chain[1].body) != 1:
-        raise TranslatorError("branch 2 is not `part == '*'`")
-    g = chain[1].body[0]
-    if not (isinstance(g, ast.If) and not g.orelse and len(g.body) == 1):
-        raise TranslatorError("branch *: guard shape changed")
-    out["star_skip_after"] = _cmp_const(g.test, "last", ast.NotIn, "branch * guard")
-    out["star"] = _const_str(_assign_of(g.body[0], "regex", "branch *"), "branch *")
-    # 3: **
-    if _cmp_const(chain[2].test, "part", ast.Eq, "branch **") != "**" or len(chain[2].body) != 1:
-        raise TranslatorError("branch 3 is not `part == '**'`")
-    g = chain[2].body[0]
-    if not (isinstance(g, ast.If) and not g.orelse and len(g.body) == 2 and isinstance(g.body[1], ast.If)):
-        raise TranslatorError("branch **: guard shape changed")
-    out["dstar_skip_after"] = [_cmp_const(g.test, "last", ast.NotEq, "branch ** guard")]
-    out["dstar"] = _const_str(_assign_of(g.body[0], "regex", "branch **"), "branch **")
-    out["dstar_replace_after"] = [_cmp_const(g.body[1].test, "last", ast.Eq, "branch ** replace")]
-    if ast.unparse(g.body[1].body[0]) != "replace = True" or g.body[1].orelse:
-        raise TranslatorError("branch **: replace assignment changed")
-    # 4: **/
-    if _cmp_const(chain[3].test, "part", ast.Eq, "branch **/") != "**/" or len(chain[3].body) != 1:
-        raise TranslatorError("branch 4 is not `part == '**/'`")
-    g = chain[3].body[0]
-    if not (isinstance(g, ast.If) and not g.orelse and len(g.body) == 2 and isinstance(g.body[1], ast.If)):
-        raise TranslatorError("branch **/: guard shape changed")
-    out["dstarslash_skip_after"] = [_cmp_const(g.test, "last", ast.NotEq, "branch **/ guard")]
-    out["dstarslash"] = _const_str(_assign_of(g.body[0], "regex", "branch **/"), "branch **/")
-    out["dstarslash_replace_after"] = _cmp_const(g.body[1].test, "last", ast.In, "branch **/ replace")
-    if ast.unparse(g.body[1].body[0]) != "replace = True" or g.body[1].orelse:
-        raise TranslatorError("branch **/: replace assignment changed")
-    # 5: class
-    if ast.unparse(chain[4].test) != "part.startswith('[') and part.endswith(']')" or len(chain[4].body) != 1:
-        raise TranslatorError("branch 5 is not the class branch")
-    v = _assign_of(chain[4].body[0], "regex", "class branch")
-    if not (isinstance(v, ast.IfExp) and ast.unparse(v.test) == "part[1] == '!'"):
-        raise TranslatorError("class branch: not `<neg> if part[1] == '!' else <pos>`")
-    if ast.unparse(v.body) != "f'[^{part[2:-1]}]'" or ast.unparse(v.orelse) != "f'[{part[1:-1]}]'":
-        raise TranslatorError(f"class branch: templates changed: {ast.unparse(v.body)} / {ast.unparse(v.orelse)}")
-    out["cls_neg"] = joined_text(v.body)
-    out["cls_pos"] = joined_text(v.orelse)
-    # 6: named
-    if ast.unparse(chain[5].test) != "part.startswith('${*') and part.endswith('}')":
-        raise TranslatorError("branch 6 is not the named-wildcard branch")
-    nb = chain[5].body
-    src = [ast.unparse(s) for s in nb]
-    expected = [
-        "if not allow_names:\n    raise ValueError(f'Named wildcards not allowed in {pattern}')",
-        "name = _get_wildcard_name(part, pattern)",
-    ]
-    if src[:2] != expected or len(nb) != 3 or not isinstance(nb[2], ast.If):
-        raise TranslatorError("named branch: preamble changed")
-    if ast.unparse(nb[2].test) != "name in encountered" or len(nb[2].body) != 1:
-        raise TranslatorError("named branch: back-reference test changed")
-    ref = _assign_of(nb[2].body[0], "regex", "named branch (back-reference)")
-    if ast.unparse(ref) != "f'(?P={name})'":
-        raise TranslatorError("named branch: back-reference template changed")
-    out["ref"] = joined_text(ref)
-    first = nb[2].orelse
-    fsrc = [ast.unparse(s) for s in first]
-    if len(first) != 4 or fsrc[2] != "encountered.add(name)":
-        raise TranslatorError("named branch: first-occurrence block changed")
-    m = re.fullmatch(r"part_regex = convert_nglob_to_regex\(subs\.get\(name, '(.*)'\), \{\}, False\)", fsrc[0])
-    if not m:
-        raise TranslatorError(f"named branch: recursive call changed: {fsrc[0]}")
-    out["default_sub"] = m.group(1)
-    grp = _assign_of(first[1], "regex", "named branch (group)")
-    if ast.unparse(grp) != "f'(?P<{name}>{part_regex})'":
-        raise TranslatorError("named branch: group template changed")
-    out["grp"] = joined_text(grp)
-    m = re.fullmatch(r"if part_regex == '(.*)':\n    star_name = name", fsrc[3])
-    if not m:
-        raise TranslatorError(f"named branch: star_name test changed: {fsrc[3]}")
-    out["star_name_when"] = m.group(1)
+    def strict_chain():
+        if len(loop.body) != 2 or not all(isinstance(s, ast.If) for s in loop.body):
+            raise TranslatorError("convert_nglob_to_regex: loop body is not two if statements")
+        par, upd = loop.body
+        if ast.unparse(par.test) != "i % 2 == 0":
+            raise TranslatorError("convert_nglob_to_regex: parity test changed")
+        if ast.unparse(par.body[0]) != "if len(part) > 0:\n    parts.append(re.escape(part))" or len(par.body) != 1:
+            raise TranslatorError("convert_nglob_to_regex: literal branch is not parts.append(re.escape(part))")
+        if ast.unparse(upd) != "if len(part) > 0:\n    last = part":
+            raise TranslatorError("convert_nglob_to_regex: `last` update changed")
+        wild = par.orelse
+        # replace = False; regex = None; star_name = None; <if chain>; <push>
+        inits = [ast.unparse(s) for s in wild[:3]]
+        if inits != ["replace = False", "regex = None", "star_name = None"] or len(wild) != 5:
+            raise TranslatorError("convert_nglob_to_regex: wildcard branch preamble changed")
+        push = ast.unparse(wild[4])
+        expected_push = ("if regex is not None and len(regex) > 0:\n    if replace:\n        parts[-1] = regex\n"
+                         "    else:\n        parts.append(regex)\n    if star_name is not None:\n"
+                         "        star_names[len(parts) - 1] = star_name")
+        if push != expected_push:
+            raise TranslatorError("convert_nglob_to_regex: the code that stores the fragment changed")
+        chain = []
+        node = wild[3]
+        while isinstance(node, ast.If):
+            chain.append(node)
+            if len(node.orelse) == 1 and isinstance(node.orelse[0], ast.If):
+                node = node.orelse[0]
+            else:
+                tail = node.orelse
+                break
+        if len(chain) != 6 or len(tail) != 1 or not isinstance(tail[0], ast.Raise):
+            raise TranslatorError(f"convert_nglob_to_regex: wildcard chain has {len(chain)} branches (6 + raise expected)")
+        out = {}
+        # 1: ?
+        if _cmp_const(chain[0].test, "part", ast.Eq, "branch ?") != "?" or len(chain[0].body) != 1:
+            raise TranslatorError("branch 1 is not `part == '?'`")
+        out["q"] = _const_str(_assign_of(chain[0].body[0], "regex", "branch ?"), "branch ?")
+        # 2: *
+        if _cmp_const(chain[1].test, "part", ast.Eq, "branch *") != "*" or len(chain[1].body) != 1:
+            raise TranslatorError("branch 2 is not `part == '*'`")
+        g = chain[1].body[0]
+        if not (isinstance(g, ast.If) and not g.orelse and len(g.body) == 1):
+            raise TranslatorError("branch *: guard shape changed")
+        out["star_skip_after"] = _cmp_const(g.test, "last", ast.NotIn, "branch * guard")
+        out["star"] = _const_str(_assign_of(g.body[0], "regex", "branch *"), "branch *")
+        # 3: **
+        if _cmp_const(chain[2].test, "part", ast.Eq, "branch **") != "**" or len(chain[2].body) != 1:
+            raise TranslatorError("branch 3 is not `part == '**'`")
+        g = chain[2].body[0]
+        if not (isinstance(g, ast.If) and not g.orelse and len(g.body) == 2 and isinstance(g.body[1], ast.If)):
+            raise TranslatorError("branch **: guard shape changed")
+        out["dstar_skip_after"] = [_cmp_const(g.test, "last", ast.NotEq, "branch ** guard")]
+        out["dstar"] = _const_str(_assign_of(g.body[0], "regex", "branch **"), "branch **")
+        out["dstar_replace_after"] = [_cmp_const(g.body[1].test, "last", ast.Eq, "branch ** replace")]
+        if ast.unparse(g.body[1].body[0]) != "replace = True" or g.body[1].orelse:
+            raise TranslatorError("branch **: replace assignment changed")
+        # 4: **/
+        if _cmp_const(chain[3].test, "part", ast.Eq, "branch **/") != "**/" or len(chain[3].body) != 1:
+            raise TranslatorError("branch 4 is not `part == '**/'`")
+        g = chain[3].body[0]
+        if not (isinstance(g, ast.If) and not g.orelse and len(g.body) == 2 and isinstance(g.body[1], ast.If)):
+            raise TranslatorError("branch **/: guard shape changed")
+        out["dstarslash_skip_after"] = [_cmp_const(g.test, "last", ast.NotEq, "branch **/ guard")]
+        out["dstarslash"] = _const_str(_assign_of(g.body[0], "regex", "branch **/"), "branch **/")
+        out["dstarslash_replace_after"] = _cmp_const(g.body[1].test, "last", ast.In, "branch **/ replace")
+        if ast.unparse(g.body[1].body[0]) != "replace = True" or g.body[1].orelse:
+            raise TranslatorError("branch **/: replace assignment changed")
+        # 5: class
+        if ast.unparse(chain[4].test) != "part.startswith('[') and part.endswith(']')" or len(chain[4].body) != 1:
+            raise TranslatorError("branch 5 is not the class branch")
+        v = _assign_of(chain[4].body[0], "regex", "class branch")
+        if not (isinstance(v, ast.IfExp) and ast.unparse(v.test) == "part[1] == '!'"):
+            raise TranslatorError("class branch: not `<neg> if part[1] == '!' else <pos>`")
+        if ast.unparse(v.body) != "f'[^{part[2:-1]}]'" or ast.unparse(v.orelse) != "f'[{part[1:-1]}]'":
+            raise TranslatorError(f"class branch: templates changed: {ast.unparse(v.body)} / {ast.unparse(v.orelse)}")
+        out["cls_neg"] = joined_text(v.body)
+        out["cls_pos"] = joined_text(v.orelse)
+        # 6: named
+        if ast.unparse(chain[5].test) != "part.startswith('${*') and part.endswith('}')":
+            raise TranslatorError("branch 6 is not the named-wildcard branch")
+        nb = chain[5].body
+        src = [ast.unparse(s) for s in nb]
+        expected = [
+            "if not allow_names:\n    raise ValueError(f'Named wildcards not allowed in {pattern}')",
+            "name = _get_wildcard_name(part, pattern)",
+        ]
+        if src[:2] != expected or len(nb) != 3 or not isinstance(nb[2], ast.If):
+            raise TranslatorError("named branch: preamble changed")
+        if ast.unparse(nb[2].test) != "name in encountered" or len(nb[2].body) != 1:
+            raise TranslatorError("named branch: back-reference test changed")
+        ref = _assign_of(nb[2].body[0], "regex", "named branch (back-reference)")
+        if ast.unparse(ref) != "f'(?P={name})'":
+            raise TranslatorError("named branch: back-reference template changed")
+        out["ref"] = joined_text(ref)
+        first = nb[2].orelse
+        fsrc = [ast.unparse(s) for s in first]
+        if len(first) != 4 or fsrc[2] != "encountered.add(name)":
+            raise TranslatorError("named branch: first-occurrence block changed")
+        m = re.fullmatch(r"part_regex = convert_nglob_to_regex\(subs\.get\(name, '(.*)'\), \{\}, False\)", fsrc[0])
+        if not m:
+            raise TranslatorError(f"named branch: recursive call changed: {fsrc[0]}")
+        out["default_sub"] = m.group(1)
+        grp = _assign_of(first[1], "regex", "named branch (group)")
+        if ast.unparse(grp) != "f'(?P<{name}>{part_regex})'":
+            raise TranslatorError("named branch: group template changed")
+        out["grp"] = joined_text(grp)
+        m = re.fullmatch(r"if part_regex == '(.*)':\n    star_name = name", fsrc[3])
+        if not m:
+            raise TranslatorError(f"named branch: star_name test changed: {fsrc[3]}")
+        out["star_name_when"] = m.group(1)
+        return out
+
+    try:
+        out = strict_chain()
+    except TranslatorError as strict_error:
+        # The loop no longer has the one shape this extractor knows.  translator/gen_nglob_regex.py translates
+        # the loop statement by statement (any equivalent shape) and accepts only the model's fragment texts;
+        # when it succeeds, the constants below are the ones it validated (KNOWN_CHAIN), and what each branch
+        # does with them is decided by proofs/NglobRegexTie.v, not here.
+        from . import gen_nglob_regex
+        try:
+            _text, rfacts = gen_nglob_regex.generate()
+        except TranslatorError:
+            raise strict_error from None
+        out = dict(KNOWN_CHAIN)
+        out["chain_shape"] = "other (translated by gen_nglob_regex)"
     # post-processing block
     post = [s for s in body if isinstance(s, ast.If) and ast.unparse(s.test) == "allow_names"]
     if len(post) != 1:
